@@ -39,6 +39,13 @@ class P:
         cases = flow.mk_cases("shapes", [("RT:" + hx(progs.render_full(t)), None) for t in items])
         chains = ["a;b", "a=1;b=a+1;b", "1;2;3;", "[1,2,];{1:2,}", "f();g(1)", ""]
         cases += flow.mk_cases("chains", ["RT:" + hx(s) for s in chains])
+        # operators spelled as words (registered at run time: postfix, prefix, infix) directly in front of every separator the
+        # printer writes without a blank ( , ; : ) ] } ): the rendered text must read back as the same tree
+        regs = "H:31:rn(0,1,0) REGS:%s:31 REGP:%s:31 REGI:%s:6e:0:0:31 REGS:%s:31 " % (hx("bang"), hx("neg"), hx("hi"), hx("zz"))
+        wprogs = ["[a bang , b]", "f(a bang , b bang)", "{a bang : b bang , c : d}", "a bang ; b bang ; c", "(a bang) hi (b bang)",
+                  "[neg a , b hi c , c bang]", "{a hi b : c bang}", "a bang ? b bang : c bang", "[a bang zz , [b zz]]", "f(neg a bang)",
+                  "g(a hi b bang , {x : y zz})", "a = b bang ; a", "[a bang]", "f()", "{a zz : a zz}", "neg neg a bang zz ; b"]
+        cases += flow.mk_cases("wordops", [regs + "RT:" + hx(p) for p in wprogs])
         n = 3000 if tier == "quick" else 300000
         rnd = []
         for _ in range(n):
@@ -48,10 +55,10 @@ class P:
         return cases
 
     def show(self, case):
-        return unhx(case.line.split(" ")[1].split(":")[1])
+        return unhx(case.line.split(" ")[-1].split(":")[1])
 
     def classify(self, case, impl):
-        p = impl.split(":")
+        p = impl.split(" ")[-1].split(":")
         return p[0] if p[0] != "OK" else ("OK/" + p[3].split(";")[0] if len(p) > 3 else "OK")
 
     def nontrivial(self, case, impl):
@@ -77,7 +84,7 @@ class P:
         return None
 
     def oracle(self, case, impl):
-        p = impl.split(":")
+        p = impl.split(" ")[-1].split(":")
         if p[0] == "ERR": return "ok", ""
         if p[0] != "OK": return "violates", "parse/expr did not return: " + p[0]
         ast1, x = p[1], p[2]
